@@ -432,6 +432,67 @@ def gen_case(rng, stats, thorough):
     return {"config": cfg, "lang": lang, "units": units}
 
 
+SMALL_N = [0, 1, 200, 409, 410, 411, 569, 570, 729, 730, 889, 890]     # 0,1,1,1,2,2,2,3,3,4,4,5 frames at 410/160
+
+
+def gen_small_case(rng, stats):
+    """utterances of 0–4 (and 5) frames, every count in every run (C03_T0 … C03_T2_T3; the neighbourhood of
+    D8/D62/D66: first call without a frame, start padding applied at end_utt, feature window longer than the
+    utterance), on ONE decoder with the default rates, in every calling mode"""
+    cfg = {}
+    if rng.chance(0.4):
+        cfg["cmn"] = rng.choice(["batch", "none", "live"])
+    if rng.chance(0.3):
+        cfg["compallsen"] = "yes"
+    stats.setdefault("model", {})
+    stats["model"]["en-us"] = stats["model"].get("en-us", 0) + 1
+    units = []
+    ns = list(SMALL_N)
+    rng.shuffle(ns)
+    per = [ns[:4], ns[4:8], ns[8:]]
+    for group in per:
+        gram = gen_grammar(rng, "en-us", stats)
+        utts = []
+        for n in group:
+            a = rng.range(8000, 30000)
+            audio = [{"src": "goforward.raw", "a": a, "b": a + n, "kind": "small"}]
+            stats["audio"]["small"] = stats["audio"].get("small", 0) + 1
+            mode = rng.weighted([("one", 3), ("head", 3), ("shift", 2), ("full", 2), ("nosearch", 2), ("tiny", 2)])
+            stats["chunking"]["small_" + mode] = stats["chunking"].get("small_" + mode, 0) + 1
+            f32 = 1 if rng.chance(0.3) else 0
+            ops = ["start"]
+            if rng.chance(0.5):
+                ops.append(["dump", "zero"])
+            if mode == "one" or n == 0:
+                chunks = [(n, 0, 0)]
+            elif mode == "head":       # a first call too short to yield a frame, then the rest
+                h = min(n, rng.choice([1, 100, 159, 160, 409]))
+                chunks = [(h, 0, 0)] + ([(n - h, 0, 0)] if n > h else [])
+            elif mode == "shift":
+                chunks = [(min(160, n - x), 0, 0) for x in range(0, n, 160)]
+            elif mode == "full":
+                chunks = [(n, 0, 1)]
+            elif mode == "nosearch":
+                h = n // 2
+                chunks = [(h, 1, 0), (n - h, 1 if rng.chance(0.5) else 0, 0)]
+            else:
+                chunks, left = [], n
+                while left > 0:
+                    c = min(left, rng.range(1, 120))
+                    chunks.append((c, 0, 0))
+                    left -= c
+            for i, (c, nsr, fu) in enumerate(chunks):
+                ops.append(["proc", c, nsr, fu, f32])
+                if rng.chance(0.25) and i != len(chunks) - 1:
+                    ops.append(["dump", f"mid{i}"])
+            if rng.chance(0.6):
+                ops.append(["dump", "preend"])
+            ops += ["end", ["dump", "fin"]]
+            utts.append({"audio": audio, "plan": ops})
+        units.append({"grammar": gram, "utts": utts})
+    return {"config": cfg, "lang": "en-us", "units": units}
+
+
 # ---------------------------------------------------------------------------------------------
 # running one case: harness → dump blocks → driver → judgement
 
@@ -834,7 +895,7 @@ STEP_SHAPES = [
                              for w in (["go", "forward", "ten"] if (a + b) % 2 else ["meters", "a", "the(2)"])) + "FSG_END\n"),
 ]
 
-STEP_FIELDS = ["lt", "consts", "pre", "start", "finish", "table"]
+STEP_FIELDS = ["lt", "build", "consts", "pre", "start", "finish", "table"]
 
 
 def gen_step_case(rng, idx, thorough, feats):
@@ -962,13 +1023,15 @@ def judge_step_output(hout, dout):
             if v is None:
                 probs.append((f"the driver gave no verdict `{f}`", {"utt": b["tag"]}))
                 continue
-            flags = v if f not in ("table",) else v[:1]
+            flags = v if f not in ("table", "build") else v[:1]
             if f == "lt":
                 flags = [v[0], v[1], v[3]]
             if f == "start":
                 flags = v[:4]
             if any(x != "1" for x in flags):
                 what = {"lt": "LexTreeOK / every sibling chain ends / no multiplex HMM: false on the dumped lextree",
+                        "build": "the lextree the model builds (buildLexTree on the dumped FSG, pronunciations and ssid lookups) "
+                                 "differs from the lextree the code built",
                         "consts": "WORST_SCORE / SENSCR_SHIFT / TMAT_WORST_SCORE of the build differ from the generated constants",
                         "pre": "the state before fsg_search_start is not all-cleared (an HMM outside the active lists is not cleared)",
                         "start": "startRelB / searchInvB false on the state after fsg_search_start",
@@ -1203,7 +1266,8 @@ def run_check(c, prop):
     c.assumptions += ["bestpath is compiled out (__FSG_ALLOW_BESTPATH__ = 0, regenerated constant): hyp/seg_iter take the "
                       "history-table branch", "scores stay inside int32 (the model computes in unbounded integers)",
                       "backtraces are shorter than 32768 entries (fsg_seg_t.n_hist is an int16)"]
-    if not c.lean_obligations():
+    # C03's audit also covers the composed frame-accounting theorems (Props/C03Frames imports C06, C07, Search)
+    if not (c.lean_obligations(extra_targets=("SSVerif.Props.C03Frames",)) if prop == "C03" else c.lean_obligations()):
         return
     consts = (vlib.LEAN / "SSVerif" / "Generated" / "HistConsts.lean").read_text()
     c.oblige("regenerated constant: __FSG_ALLOW_BESTPATH__ = 0 (the modelled branch of fsg_search_hyp/seg_iter is the live one)",
@@ -1220,6 +1284,8 @@ def run_check(c, prop):
             cases.append((f"corpus-{f.stem}", json.loads(f.read_text())))
     ncorp = len(cases)
     target_decodes = 60 if not thorough else 3000
+    for k in range(1 if not thorough else 25):      # 0–5-frame utterances in every run
+        cases.append((f"small{k}", gen_small_case(c.rng, stats)))
     ndec = 0
     while ndec < target_decodes:
         cs = gen_case(c.rng, stats, thorough)
@@ -1240,6 +1306,7 @@ def run_check(c, prop):
            "harness_crashes": 0, "reruns_on_plain_flavour": 0}
     reruns = {}
     distinct = set()
+    small_final = {}
     branches = {}
     all_ok = {"corr": True, "wf": True, "oracle": True, "crash": True}
     reported = 0
@@ -1264,6 +1331,8 @@ def run_check(c, prop):
             for b in inf.get("branches", []):
                 if b:
                     branches[b] = branches.get(b, 0) + 1
+            if inf["final"] and 0 <= inf["frames"] <= 5:
+                small_final[inf["frames"]] = small_final.get(inf["frames"], 0) + 1
             if inf["frames"] == 0:
                 agg["zero_frame_dumps"] += 1
             elif inf["frames"] <= 4:
@@ -1333,11 +1402,14 @@ def run_check(c, prop):
                  "(returns of processing calls + end_utt = front-end frames; decoder_n_frames = that + source offset) on every utterance",
                  all_ok["oracle"])
     c.oblige("every decode ran to completion (no sanitizer report, assert, exit, timeout)", all_ok["crash"])
+    c.oblige("generator: final results of utterances of 0, 1, 2, 3 and 4 frames were all produced and judged in this run",
+             all(small_final.get(t, 0) > 0 for t in range(5)) or not all_ok["crash"], small_final)
     c.cov.update({"evaluations": ndumps, "distinct_nontrivial": len(distinct),
                   "rule": "evaluation = one dump (history table + API results) judged; non-trivial = the result has an exit "
                           "(hypothesis or at least one segment); distinct by (case, dump point, hypothesis)",
                   "cases": len(cases), "corpus_cases": ncorp, "decoder_n_frames_offset_in_source": nfoff, **agg,
                   "reruns_on_plain_flavour_by_reason (library stopped under asserts/UBSan for a reason owned by C09/C18)": reruns,
+                  "final_results_by_frames_searched_0_to_5": {str(k): small_final.get(k, 0) for k in range(6)},
                   "findExit_branches_hit (dumps)": branches,
                   "findExit_branches_never_hit": [b for b in ALL_BRANCHES if b not in branches],
                   "acoustic_models": stats.get("model", {}), "audio_kinds": stats["audio"], "grammar_kinds": stats["grammar"], "grammar_features": stats["features"],
@@ -1349,7 +1421,7 @@ def check(c):
 
 
 def replay_common(c, path, prop):
-    c.lean_obligations()
+    c.lean_obligations(extra_targets=("SSVerif.Props.C03Frames",)) if prop == "C03" else c.lean_obligations()
     binp = private_harnesses(c.scratch)
     snapshot_driver(c.scratch)
     obj = json.loads(open(path).read())
